@@ -1206,7 +1206,7 @@ scpi_bool_t SCPI_ParamCopyText(scpi_t * context, char * buffer, size_t buffer_le
             case SCPI_TOKEN_DOUBLE_QUOTE_PROGRAM_DATA:
                 quote = param.type == SCPI_TOKEN_SINGLE_QUOTE_PROGRAM_DATA ? '\'' : '"';
                 for (i_from = 1, i_to = 0; i_from < (size_t) (param.len - 1); i_from++) {
-                    if (i_from >= buffer_len) {
+                    if ((i_to + 1) >= buffer_len) {
                         break;
                     }
                     buffer[i_to] = param.ptr[i_from];
